@@ -14,6 +14,8 @@ CONSTANTS
   ClsU = {"U", "V"}
   BadArgs = {"none", "badtype"}
   MaxItems = 2
+  MaxCompile = 2
+  SameD = FALSE
   GenDepth = 0
 INVARIANT ImplRefinesReq
 INVARIANT ReqWellFormed
